@@ -1,4 +1,4 @@
-\* exhaustive design check (quick): 1 account + 2 contracts x 1 key, 2 values, <= 2 log entries in total,
+\* exhaustive design check (quick): 1 account + 2 contracts x 1 key, 2 values, <= 2 log entries in total (<= 1 account entry),
 \* 2 snapshot levels (block and handle snapshots in any nesting), one commit cycle then reopen
 SPECIFICATION Spec
 CONSTANTS
@@ -7,7 +7,7 @@ CONSTANTS
   Keys = {"k1"}
   Vals = {"v1", "v2"}
   InitTries <- Tries1
-  MaxABuf = 2
+  MaxABuf = 1
   MaxSBuf = 2
   MaxEnt = 2
   MaxSnaps = 2
